@@ -286,7 +286,7 @@ func c16Cases(c runCfg) ([]*scratch.Pkg, []string, map[string]interface{}) {
 		}
 		bf := baseForms[i%len(baseForms)]
 		sp := specFromTemplates(ts)
-		sp.ServerURL, sp.ServerVar = bf.Server, bf.Vars
+		sp.ServerURL, sp.ServerVar, sp.MoreServers = bf.Server, bf.Vars, bf.More
 		// security on some operations
 		secured := i%2 == 1
 		if secured {
